@@ -47,7 +47,7 @@ VA_ALL = both(hd.rule_va_index, hd.rule_va_enum, hd.rule_va_esc) + one(hd.rule_v
 PA_ALL = both(pa.rule_pa_case, pa.rule_pa_withcase, pa.rule_pa_groups, pa.rule_pa_litorder, pa.rule_pa_cleanorder, pa.rule_pa_lit, pa.rule_pa_litflow, pa.rule_pa_subst, pa.rule_pa_litcheck, pa.rule_pa_top, pa.rule_pa_zero, pa.rule_pa_asc, pa.rule_pa_redund, pa.rule_rx_guard)
 CS_ALL = both(cs.rule_rx_field, cs.rule_rx_newline, cs.rule_rx_ws, cs.rule_cs_trigger, cs.rule_cs_accept, cs.rule_cs_width, cs.rule_cs_extws, cs.rule_cs_dispatch, cs.rule_cs_writer, cs.rule_cs_reader)
 XP_ALL = one(xp.rule_rx_xp, xp.rule_xp_keywords, xp.rule_xp_roles, xp.rule_xp_messages, xp.rule_xp_verdicts, cs.rule_xp_trigger)
-OW_ALL = both(ow.rule_ow_mut, ow.rule_ow_fresh, ow.rule_ow_selwrap, ow.rule_ow_open, ow.rule_ow_fs) + one(ow.rule_ow_sql, ow.rule_ow_conn, ow.rule_ow_pandas)
+OW_ALL = both(ow.rule_ow_mut, ow.rule_ow_fresh, ow.rule_ow_selwrap, ow.rule_ow_open, ow.rule_ow_fs, ow.rule_ow_brecords) + one(ow.rule_ow_sql, ow.rule_ow_conn, ow.rule_ow_pandas)
 RD_PY = one(rd.rule_rd_mustflow, rd.rule_rd_partition, rd.rule_rd_crla) + py(rd.rule_rd_decode, rd.rule_rd_eof, rd.rule_rd_bom, rd.rule_rd_comment, rd.rule_rd_rfc, rd.rule_rd_hdrflag, rd.rule_rd_replay, cs.rule_rx_newline)
 RD_JS = one(rd.rule_rd_jschunk, rd.rule_rd_chunkstate) + js(rd.rule_rd_decode, rd.rule_rd_eof, rd.rule_rd_bom, rd.rule_rd_comment, rd.rule_rd_rfc, rd.rule_rd_hdrflag, rd.rule_rd_replay, cs.rule_rx_newline)
 GS_ALL = one(gs.rule_gs_modstate, gs.rule_gs_classattr, gs.rule_gs_defaults, gs.rule_gs_ctxescape, gs.rule_gs_exec, gs.rule_gs_procstate, gs.rule_gs_debugflag)
